@@ -43,11 +43,12 @@ WellFormed(c) ==
   /\ c.nsect >= 1 /\ c.ndir % c.nsect = 0
   /\ c.nmini >= 0 /\ c.nmaxi >= 0 /\ c.nsmax >= 0
   /\ c.radiusRank \in 0..NCand(c)
-  \* "is the target itself": one sample at most, the closest one (it coincides with the target);
-  \* its angular sector is undefined, hence allowed as an admissible sample only with one sector
+  \* "is the target itself": one sample at most, the closest one (it coincides with the target: a
+  \* zero distance to ONE sample is not a tie).  Its angular sector is not defined: with several
+  \* sectors, as an admissible sample, the case belongs to the property only when the defined
+  \* neighbourhood is the same whichever sector it is counted in (see SectorIndependent below)
   /\ ~c.kfold => /\ Cardinality({i \in Idx(c) : c.cands[i].isTargetOrFold}) <= 1
                  /\ \A i \in Idx(c) : c.cands[i].isTargetOrFold => c.cands[i].distRank = 1
-                 /\ (\E i \in Idx(c) : c.cands[i].isTargetOrFold) /\ ~c.xvalid => c.nsect = 1
                  /\ (\E i \in Idx(c) : c.cands[i].isTargetOrFold) => c.radiusRank >= 1
 
 \* sector of a sample among the nsect sectors of the neighbourhood
@@ -97,6 +98,16 @@ Selected(c) ==
 
 InDbOrder(c, S) == SelectSeq([i \in Idx(c) |-> i], LAMBDA i : i \in S)
 Definition(c) == InDbOrder(c, Selected(c))
+
+\* A sample that coincides with the target (and is not excluded by the cross-validation) has no
+\* angular sector.  The definition then determines the neighbourhood only if it is the same for
+\* every sector the sample could be counted in (e.g. when the quotas do not bind).
+Coincident(c, i) == ~c.kfold /\ c.cands[i].isTargetOrFold
+WithSector(c, i, s) == [c EXCEPT !.cands[i].sector = s]
+SectorIndependent(c) ==
+  \A i \in Idx(c) : Coincident(c, i) /\ ~c.xvalid /\ c.nsect > 1
+     => \A s \in 0..(c.ndir - 1) : Selected(WithSector(c, i, s)) = Selected(c)
+CoincidentInSectors(c) == \E i \in Idx(c) : Coincident(c, i) /\ ~c.xvalid /\ c.nsect > 1 /\ i \in Admissible(c)
 
 \* quantities of the definition, for the categories of cases
 InSector(c, s) == {i \in Admissible(c) : SectorOf(c, i) = s}
@@ -295,5 +306,7 @@ Categories(c) ==
        singleCut  |-> c.nsect = 1 /\ over,
        allKept    |-> sel = adm /\ adm # {},
        reordered  |-> \E i, j \in Idx(c) : i < j /\ Rank(c, i) > Rank(c, j),
+       coincidentSectors |-> CoincidentInSectors(c),
+       coincidentSectorsCut |-> CoincidentInSectors(c) /\ sel # adm /\ sel # {},
        secondTestDead |-> cut /\ AlgorithmLiveSecondTest(c) # InDbOrder(c, sel) ]
 =============================================================================
